@@ -358,6 +358,62 @@ CASES = {
             return new, tuple(LOG)
         ''', [("k", ["k"], "a"), ("k", ["a", "k"], "a"), ("k", ["a", "b"], "a/*"), ("k", ["a", "b"], "a"), ("k", [], "x"),
                 ("a", {"y": 2}), ("b", {"y": 2}), ("zz", {"y": 2})]),
+    "another_hand": ('''
+        LOG = []
+        _ANY = "*"
+        _PAIR = (None, None)
+        _AMBIGUOUS = object()
+        def t(x):
+            LOG.append(x)
+            return x
+        def _segments(s):
+            return s.split("/")
+        def _needs(s):
+            if not s:
+                return True
+            if "*" in s:
+                return True
+            as_text = str(s)
+            return as_text.upper() != as_text
+        def _pick(kind, options):
+            if len(options) == 1:
+                return options[0]
+            if kind in options:
+                return kind
+            return _AMBIGUOUS
+        class Anchor:
+            def __init__(self, fields):
+                self._fields = fields
+            def run(self, key):
+                own = self._fields
+                if not own or key not in own:
+                    return _PAIR
+                finder = t("finder")
+                results = (finder, [k for k in own if k != _ANY])
+                return results
+        def anchor(s, key):
+            LOG.clear()
+            if _needs(s):
+                parts = t("unfold")
+            else:
+                t("plain")
+                parts = [s]
+            ordered = sorted(["b/a", "a/c", "a/b"], key=_segments)
+            grouped = [x for x in ordered if not s or _segments(x)[:1] != _segments(str(s))[:1] or t("same")]
+            return parts, grouped, Anchor({"k": 1, "*": 2}).run(key), Anchor({}).run(key), tuple(LOG)
+        def anchor2(kind, options, text):
+            LOG.clear()
+            chosen = _pick(kind, options)
+            if chosen is _AMBIGUOUS:
+                if "*" in text:
+                    t("search")
+                    chosen = options[0] if options else None
+                else:
+                    t("refused")
+                    return ("refused", tuple(LOG))
+            return ("ok", chosen, tuple(LOG))
+        ''', [("a/b", "k"), ("", "k"), ("A/B", "zz"), ("a/*", "*"), ("k", ["k"], "x"), ("k", ["a", "k"], "x"), ("k", ["a", "b"], "a/*"),
+                ("k", ["a", "b"], "a"), ("k", [], "*")]),
 }
 
 CROSS = {
